@@ -65,7 +65,11 @@ def check_table(ctx):
     raise_p = 'do_raise' if 'do_raise' in prm else None
     if raise_p is None:
         raise AnalysisError('scope gate has no do_raise parameter')
-    t = Table(prog, gate)
+    from ..dte import inline_helpers
+    t = Table(prog, gate, inline=inline_helpers(
+        prog, modules={POLICY}, exclude={POLICY + '.Enforcer.enforce',
+                                         POLICY + '.Enforcer.load_rules'}),
+        split_returns=True, max_depth=4)
     W = ctx.where(gate.module, gate.node)
     F = W.split(':')[0]
 
@@ -160,8 +164,48 @@ def check_table(ctx):
     return gate
 
 
+def _strip_or_none(e):
+    while isinstance(e, ast.BoolOp) and isinstance(e.op, ast.Or) and len(
+            e.values) == 2 and is_const(e.values[1], None):
+        e = e.values[0]
+    return e
+
+
+def _registered_lookup(e):
+    """is e `self.registered_rules.get(rule)` / `[rule]` (maybe `or None`)"""
+    e = _strip_or_none(e)
+    if isinstance(e, ast.Call) and method_call(e, 'get') and U(
+            method_call(e)[0]) == 'self.registered_rules' and e.args and \
+            U(e.args[0]) == 'rule' and (len(e.args) == 1 or is_const(
+                e.args[1], None)):
+        return True
+    return isinstance(e, ast.Subscript) and U(e.value) == \
+        'self.registered_rules' and U(e.slice) == 'rule'
+
+
+def _gate_false_needs_no_raise(ctx, gate):
+    """Does every path of the gate that answers False run with a falsy
+    do_raise?  (Then `gate said no` and `do_raise` exclude each other.)"""
+    prog = ctx.prog
+    from ..dte import inline_helpers
+    t = Table(prog, gate, inline=inline_helpers(
+        prog, modules={POLICY}, exclude={POLICY + '.Enforcer.enforce',
+                                         POLICY + '.Enforcer.load_rules'}),
+        split_returns=True, max_depth=4)
+    n = 0
+    for p in t.paths:
+        if p.outcome.kind == 'return' and is_const(p.outcome.expr, False):
+            n += 1
+            if not any(c.kind == 'test' and not c.pol and U(c.expr) ==
+                       'do_raise' for c in p.conds):
+                return False
+    return n > 0
+
+
 def check_gate(ctx, gate):
     prog = ctx.prog
+    from ..enforce_model import gate_cond
+    excl = _gate_false_needs_no_raise(ctx, gate)
     t = enforce_table(ctx, inline_gate=False)
     enf = t.enf
     F = ctx.where(enf.module, enf.node).split(':')[0]
@@ -181,7 +225,13 @@ def check_gate(ctx, gate):
                   if e.kind == 'call' and is_check_call(
                       prog, t.module_of(e.frame), e.node)]
         gates = [(i, e) for i, e in enumerate(p.events)
-                 if e.kind == 'call' and prog.callee_of(enf, e.node) is gate]
+                 if e.kind == 'call' and prog.callee_of(
+                     prog.functions.get(e.frame, enf), e.node) is gate]
+        if excl and any(gate_cond(t, c) and not c.pol for c in p.conds) \
+                and any(c.kind == 'test' and c.pol and U(c.expr) ==
+                        'do_raise' for c in p.conds):
+            # the gate answers False only without do_raise
+            continue
         # gate results tested on this path
         for gi, ge in gates:
             a = {}
@@ -191,17 +241,13 @@ def check_gate(ctx, gate):
             for k in ge.node.keywords:
                 a[k.arg] = k.value
             subj = a.get(gp[1])
-            subj_x = t.expand(subj) if subj is not None else None
+            subj_x = _strip_or_none(t.expand(subj)) if subj is not None \
+                else None
             dr = a.get('do_raise')
             cr = a.get(gp[0])
             named = not (subj is not None and U(subj) == 'rule')
             if named:
-                ok_src = isinstance(subj_x, ast.Call) and method_call(
-                    subj_x, 'get') and U(method_call(subj_x)[0]) == \
-                    'self.registered_rules' and U(subj_x.args[0]) == 'rule'
-                if not ok_src and isinstance(subj_x, ast.Subscript):
-                    ok_src = U(subj_x.value) == 'self.registered_rules' and \
-                        U(subj_x.slice) == 'rule'
+                ok_src = subj_x is not None and _registered_lookup(subj_x)
                 once('C08.GATE', bool(ok_src), ge.line,
                      'gate subject ' + U(subj_x),
                      'scope types come from the registered default of the '
@@ -223,6 +269,10 @@ def check_gate(ctx, gate):
             res = ge.sym
             tested = [c for c in p.conds if c.kind == 'test' and isinstance(
                 c.expr, ast.Name) and c.expr.id == res]
+            if not tested:
+                # the call itself is the condition (`if not self._gate(..)`)
+                tested = [c for c in p.conds[ge.nconds:]
+                          if gate_cond(t, c)][:1]
             if not tested:
                 once('C08.GATE', False, ge.line, 'gate result unused',
                      'the result of the scope gate is not tested')
@@ -270,12 +320,16 @@ def check_gate(ctx, gate):
             else:
                 def reg_falsy(c):
                     e = t.expand(c.expr)
+                    if isinstance(e, ast.Compare) and len(e.ops) == 1 and \
+                            isinstance(e.ops[0], ast.Is) and is_const(
+                                e.comparators[0], None):
+                        return c.pol and _registered_lookup(e.left)
                     if c.pol:
                         return False
-                    txt = U(e)
-                    return txt.startswith('self.registered_rules') and (
-                        txt.endswith('.scope_types') or txt.endswith(
-                            '.get(rule)') or txt.endswith('[rule]'))
+                    if isinstance(e, ast.Attribute) and \
+                            e.attr == 'scope_types':
+                        return _registered_lookup(e.value)
+                    return _registered_lookup(e)
                 ok = any(c.kind == 'test' and reg_falsy(c) for c in conds)
                 once('C08.GATE', ok, ce.line,
                      'named rule evaluated without gate',
@@ -306,7 +360,8 @@ def check_mirror(ctx, gate):
         return None
     for p in t.paths:
         gates = [i for i, e in enumerate(p.events) if e.kind == 'call'
-                 and prog.callee_of(enf, e.node) is gate]
+                 and prog.callee_of(prog.functions.get(e.frame, enf),
+                                    e.node) is gate]
         stores = [(i, e) for i, e in enumerate(p.events)
                   if e.kind in ('store', 'aug', 'del')
                   and isinstance(e.node, ast.Subscript)
@@ -365,12 +420,8 @@ def check_creds(ctx):
     enf = prog.func(POLICY + '.Enforcer.enforce')
     t = enforce_table(ctx, inline_gate=False)
     # the mapper
-    mapper = None
-    for call, g in prog.callees(enf):
-        if isinstance(call, ast.Call) and g.cls is not None and \
-                g.cls.qual == POLICY + '.Enforcer' and len(call.args) == 1 \
-                and U(call.args[0]) == 'creds':
-            mapper = g
+    from ..enforce_model import context_mapper
+    mapper = context_mapper(prog)
     if mapper is None:
         raise AnalysisError('context -> credentials mapper not found')
     ctxp = mapper.params[1]
@@ -433,7 +484,8 @@ def check_creds(ctx):
         c.kind == 'test' and c.pol and 'RequestContext' in U(c.expr)
         for c in p.conds)]
     okm = bool(mapped) and all(any(
-        e.kind == 'call' and prog.callee_of(enf, e.node) is mapper
+        e.kind == 'call' and prog.callee_of(
+            prog.functions.get(e.frame, enf), e.node) is mapper
         for e in p.events) for p in mapped if p.outcome.kind != 'raise'
         or True)
     ctx.ob('C08.CREDS', okm, ctx.where(enf.module, enf.node), enf.qual,
